@@ -494,7 +494,13 @@ fn one_run(log: &mut EvLog, mlog: &mut Option<EvLog>, seed: u64, thorough: bool,
     }
 
     // ---- fault plan
-    let fault_p: f64 = if mode == "clean" || mode == "neg" { 0.0 } else if mode == "flags" { 0.05 } else { [0.0, 0.03, 0.1, 0.3, 0.6][rng.gen_range(0..5)] };
+    // mode "edge": the only faults are bursts of exactly `retry` lost transmissions of one request (the boundary of
+    // the retry limit), optionally with a power cycle of the slave at the start of the burst, and frequent
+    // request_diagnostics() calls
+    let edge = mode == "edge";
+    let mut burst: Vec<u32> = vec![0; np];
+    let mut lastreq: Vec<Vec<u8>> = vec![vec![]; np];
+    let fault_p: f64 = if mode == "clean" || mode == "neg" || edge { 0.0 } else if mode == "flags" { 0.05 } else { [0.0, 0.03, 0.1, 0.3, 0.6][rng.gen_range(0..5)] };
     let fault_len_us: i64 = rng.gen_range(50..800) * slot_us;
     let start_us: i64 = 0;
     let fault_until = start_us + fault_len_us;
@@ -539,7 +545,7 @@ fn one_run(log: &mut EvLog, mlog: &mut Option<EvLog>, seed: u64, thorough: bool,
         }
         // ---- user calls and slave-side events at arbitrary points between polls
         if np > 0 {
-            if rng.gen_bool(0.002) {
+            if rng.gen_bool(if edge { 0.01 } else { 0.002 }) {
                 let i = rng.gen_range(0..np);
                 dpm.get_mut(handles[i]).request_diagnostics();
                 log.push(json!({"ev":"UserDiag","p":i + 1,"t":tt}));
@@ -630,6 +636,27 @@ fn one_run(log: &mut EvLog, mlog: &mut Option<EvLog>, seed: u64, thorough: bool,
             }
             let Some(i) = slaves.iter().position(|s| s.addr == r.da) else { continue };
             // environment: channel decision for this request
+            if edge {
+                let fresh = lastreq[i] != bytes;
+                lastreq[i] = bytes.clone();
+                if burst[i] == 0 && fresh && in_faults && rng.gen_bool(0.15) {
+                    burst[i] = retry as u32 + if rng.gen_bool(0.15) { 1 } else { 0 };   // mostly exactly the limit, sometimes one more
+                    if rng.gen_bool(0.5) {
+                        slaves[i].power_cycle();
+                        log.push(json!({"ev":"PowerCycle","p":i + 1,"t":tt}));
+                    }
+                }
+                if burst[i] > 0 {
+                    burst[i] -= 1;
+                    if rng.gen_bool(0.5) {
+                        log.push(json!({"ev":"Env","k":"LoseReq","p":i + 1,"t":end}));
+                    } else {
+                        let _ = slaves[i].handle(&r);
+                        log.push(json!({"ev":"Env","k":"LoseReply","p":i + 1,"t":end}));
+                    }
+                    continue;
+                }
+            }
             let faulty = in_faults && rng.gen_bool(fault_p);
             let kind = if mode == "neg" && in_faults && now > fault_until / 3 {
                 // all slaves lost their parameters and every Set_Prm / Chk_Cfg is answered by a
